@@ -22,6 +22,15 @@ CHECKS = {
         "adversarial (wrap-form, trailing-zero, around-the-cap) inputs are re-computed by TLC, so both directions of the format are bound to the spec.",
    note="Trusted: TLC, the run-length projection to_rl, the refusal window (must decode <= 0x3000, must refuse > 0x3000+256).",
    ref="6/C03"),
+ "C05": dict(
+   technique="TLA+ spec (ProxiedCircuit.tla: both directions, appended/PacketAck acks, forward/drop, injections, resend clock; invariants Truthful, "
+             "NoInjectedAckLeaks, CompletionExact, ResendOnlyPending) model-checked by TLC; B1 replay of every edge of the exhaustive bounded graph and of "
+             "TLC-simulated deep behaviours through the real InterceptingLLUDPProxyProtocol.handle_proxied_packet + ProxiedCircuit with a virtual clock",
+   text="TLC enumerates every interleaving of viewer/simulator packets (reliable or not, resent, acks in either form), proxy drops, proxy injections and clock ticks "
+        "up to the depth bound and checks ack truthfulness against ghost ground truth and the completion/resend rules; every edge (and every step of sampled deeper "
+        "behaviours incl. the full 10-try retry budget) is executed on the real proxy objects and the emitted datagrams, future states and message flags compared with the model.",
+   note="Trusted: TLC, the datagram projection (real deserializer), the virtual clock shim, the scripted drop addon; tracker eviction is out of scope here (C04).",
+   ref="6/C05"),
 }
 
 PENDING = {}
